@@ -48,6 +48,12 @@ var c07Templates = []c07T{
 	{"lonely chain receiver", "", `step(1)&.S`, 1, 0, false},
 	{"nested literals", "", `[[step(1)], {a: [step(2)]}, %{1: step(3)}]`, 3, 0, false},
 	{"range in array", "", `[(1:step(1)), step(2)]`, 2, 0, false},
+	{"statement after a yield in a function body", `yf := {|x| yield mark(7); step(1); mark(9)}`, `yf(0); mark(10)`, 1, 9, false},
+	{"statement after a yield in an iterator body", `it := <{|n| yield mark(7); step(1); recur(n + 1)}>.new(0)`, `it.next; mark(9)`, 1, 9, false},
+	{"statement after a guarded yield", `yg := {|x| yield mark(7) if true; step(1); step(2)}`, `yg(0)`, 2, 0, false},
+	{"statement after a defer", `df := {|x| defer mark(7); step(1); mark(9)}`, `df(0); mark(10)`, 1, 9, false},
+	{"second statement of a method body", `mo := {go: m{|| step(1); step(2); mark(9)}}`, `mo.go; mark(10)`, 2, 9, false},
+	{"predicate of a native loop helper", "", `[1, 2, 3].doUntil {|x| step(x) == 5}.A`, 3, 0, false},
 }
 
 // containsErr scans a result value for a *PanErr stored as element, key, bound or value.
@@ -130,8 +136,15 @@ func H_C07_inject() {
 		return
 	}
 	// the failing slot was reached, and nothing was evaluated after it
-	n := len(h.Trace)
-	rt.Assert(n > 0 && h.Trace[n-1] == K, "nothing may be evaluated after the sub-expression that raised")
+	// (marks 7 are made by a pending defer or before the slots; pending defers may run after a raise)
+	var slotsSeen []int64
+	for _, x := range h.Trace {
+		if x != 7 {
+			slotsSeen = append(slotsSeen, x)
+		}
+	}
+	n := len(slotsSeen)
+	rt.Assert(n > 0 && slotsSeen[n-1] == K, "nothing may be evaluated after the sub-expression that raised")
 	if t.after != 0 {
 		for _, x := range h.Trace {
 			rt.Assert(x != t.after, "the enclosing call/statement list must not continue after a raise")
